@@ -1118,3 +1118,73 @@ def spec_remove_overrides(fns, consts):
 
 
 SPECS["C07"].append(spec_remove_overrides)
+
+
+# ------------------------------------------------------------------ C12: the possible-values block of the help cannot hit its `expect`
+
+def spec_help_possible_values(fns, consts):
+    """HelpTemplate::help takes `.max().expect("Only called with possible value")` over the VISIBLE
+    possible values.  That is safe because (a) it is reached only when `use_long_pv(arg)` holds,
+    (b) `use_long_pv` is `use_long && possible_values.iter().any(PossibleValue::should_show_help)`
+    and (c) `should_show_help` is `!hide && help.is_some()` - so a visible value exists."""
+    con = contracts.Contracts(fns, default_pure=True)
+    ctx = symex.Ctx(consts, con)
+    obs, enc = [], []
+
+    def shape(msg, pc=()):
+        obs.append({"fn": "help_template.rs", "block": "shape", "kind": "spec", "target": "help_possible_values", "msg": msg, "pc": list(pc), "neg": "true"})
+    # (c)
+    try:
+        f = _find(fns, "builder/possible_value.rs", "should_show_help")
+        e = symex.Exec(ctx, f, [("opq", "pv")]).run()
+        hide = _key_sym(ctx, r"^pv\.\d+$", "Bool")
+        has = _key_sym(ctx, r"^is_some\(pv\.\d+\)$", "Bool")
+        for pc, val in e.returns:
+            obs.append({"fn": f.name, "block": "ret", "kind": "spec", "target": "help_possible_values", "msg": "should_show_help <=> not hidden and has help", "pc": list(pc),
+                        "neg": f"(not (= {val[1]} (and (not {hide}) {has})))"})
+        enc.append(_enc(f, e, len(e.returns)))
+    except Unsupported as ex:
+        shape("PossibleValue::should_show_help no longer has the reference shape: " + str(ex)[:80])
+    # (b)
+    try:
+        f = _find(fns, "output/help_template.rs", "use_long_pv")
+        e = symex.Exec(ctx, f, [("opq", "self"), ("opq", "arg")]).run()
+        ul = _key_sym(ctx, r"^self\.\d+$", "Bool")
+        anyk = [k for k in ctx.keys if " as Iterator>::any::<" in k]
+        ok_any = len(anyk) == 1 and "PossibleValue::should_show_help" in anyk[0] and "closure" not in anyk[0] and "Arg::get_possible_values(arg)" in anyk[0]
+        if not ok_any:
+            shape("use_long_pv does not test `possible_values.iter().any(PossibleValue::should_show_help)`")
+        else:
+            a = ctx.keys[anyk[0]]
+            for pc, val in e.returns:
+                obs.append({"fn": f.name, "block": "ret", "kind": "spec", "target": "help_possible_values", "msg": "use_long_pv <=> long help and some possible value is visible with help",
+                            "pc": list(pc), "neg": f"(not (= {val[1]} (and {ul} {a})))"})
+        enc.append(_enc(f, e, len(e.returns)))
+    except Unsupported as ex:
+        shape("use_long_pv no longer has the reference shape: " + str(ex)[:80])
+    # (a)
+    try:
+        f = _find(fns, "output/help_template.rs", "help")
+        e = symex.Exec(ctx, f, [("opq", "self"), ("opq", "arg_opt"), ("opq", "about"), ("opq", "spec_vals"), ("bool", ctx.sym("next_line_help", "Bool")), ("bv", ctx.sym("longest", "(_ BitVec 64)"), 64)])
+        e.run(havoc_unassigned=True, cut_loops=True)
+        paths = [(pc, env.get("#callargs", ())) for pc, env in e.cuts] + [(pc, ca) for (pc, _), ca in zip(e.returns, e.return_callargs)]
+        n = 0
+        for pc, ca in paths:
+            for callee, argkeys, _ in ca:
+                if re.search(r"^Option::<usize>::expect$", callee) and " as Iterator>::max(" in argkeys[0]:
+                    n += 1
+                    g = [ctx.keys[k] for k in ctx.keys if re.search(r"HelpTemplate::<'_, '_>::use_long_pv\(", k)]
+                    guarded = len(g) == 1 and g[0] in pc
+                    obs.append({"fn": f.name, "block": "call", "kind": "spec", "target": "help_possible_values", "msg": "the widest-visible-value `expect` is reached only under use_long_pv(arg)",
+                                "pc": list(pc), "neg": "false" if guarded else "true"})
+        if n == 0:
+            shape("HelpTemplate::help: the `.max().expect(..)` over possible values was not found")
+        enc.append(_enc(f, e, len(paths)))
+    except Unsupported as ex:
+        shape("HelpTemplate::help could not be encoded: " + str(ex)[:80])
+    for o in obs:
+        o.setdefault("target", "help_possible_values")
+    return ctx, obs, enc, con
+
+
+SPECS["C12"].append(spec_help_possible_values)
